@@ -169,7 +169,8 @@ func H_C06() {
 		ac = &denyWriter{id: ids[2].ID}
 	}
 	mk := func() *ipfslog.IPFSLog {
-		return newLogOpt(api, ids[0], &ipfslog.LogOptions{ID: "X", IO: io, Entries: orderedMapOf(chain[:shared]), AccessController: ac})
+		return newLogOpt(api, ids[0], &ipfslog.LogOptions{ID: "X", IO: io, Entries: orderedMapOf(chain[:shared]), AccessController: ac,
+			Concurrency: uint(vx.Param("CONC", 0))}) // 0 = the default (16); 1 = validation one entry at a time
 	}
 	A, twin := mk(), mk()
 	// ---- reference: candidates = new entries reachable from the source's heads through entries of this log id ----
